@@ -7,6 +7,7 @@ A case is a netlist + die and a HISTORY: a list of steps applied to ONE object g
   {"op": "alloc"}       create_initial_allocation(die)      (what the tool chain does before/after relocating)
   {"op": "set", "how": "inplace" | "assign", "mod", "c"}    the caller writes a centre (on the Point / a new Point)
   {"op": "deepcopy"} / {"op": "newdie"}                     deepcopy(die) / a new Die object on the same netlist
+  {"op": "reread"}      Netlist(netlist.write_yaml()) in a new Die: what the next tool of the chain starts from
 Every relocation call of the history is judged on its own: from the VALUES the objects hold when it starts."""
 import copy
 import math
@@ -227,7 +228,7 @@ def netlist_yaml(case):
 
 # ---------------------------------------------------------------- histories
 CALLS = ("layout", "algo")
-SHORT = {"layout": "L", "algo": "A", "squares": "sq", "alloc": "al", "deepcopy": "dc", "newdie": "nd"}
+SHORT = {"layout": "L", "algo": "A", "squares": "sq", "alloc": "al", "deepcopy": "dc", "newdie": "nd", "reread": "rr"}
 
 
 def steps_of(case):
@@ -301,7 +302,7 @@ def gen_hist_case(rng, template):
     base = gen_case(rng, "layout", no_term=squares_like and rng.random() < 0.75)
     case = {"decimal": base["decimal"], "W": base["W"], "H": base["H"], "mods": base["mods"], "nets": base["nets"],
             "ints": base["ints"]}
-    between = ["squares", "alloc", "set", "set", "set", "deepcopy", "newdie"]
+    between = ["squares", "alloc", "set", "set", "set", "deepcopy", "newdie", "reread"]
     hist = []
 
     def other():
@@ -310,7 +311,7 @@ def gen_hist_case(rng, template):
         return st or {"op": "deepcopy"}
 
     if template == "prep":
-        hist.append({"op": rng.choice(["squares", "squares", "alloc", "alloc", "deepcopy", "newdie"])})
+        hist.append({"op": rng.choice(["squares", "squares", "alloc", "alloc", "deepcopy", "newdie", "reread"])})
         if rng.random() < 0.4:
             hist.append(other())
         hist.append(gen_call(rng, algo_p=0.25, small=False))
@@ -546,6 +547,9 @@ def caller_step(case, die, st):
             die = copy.deepcopy(die)
         elif op == "newdie":
             die = Die(die_spec(case), nl)
+        elif op == "reread":
+            from frame.netlist.netlist import Netlist
+            die = Die(die_spec(case), Netlist(nl.write_yaml()))
         elif op == "set":
             m = nl.get_module(st["mod"])
             x, y = float(st["c"][0]), float(st["c"][1])
@@ -789,7 +793,7 @@ def dist_key(case):
     ncalls = sum(1 for o in ops if o in CALLS)
     return (f"history/{min(ncalls, 3)}call{'s' if ncalls > 1 else ''}/{'algo' if 'algo' in ops else 'layout'}"
             + ("/squares" if "squares" in ops or "alloc" in ops else "") + ("/edit" if "set" in ops else "")
-            + ("/copy" if "deepcopy" in ops or "newdie" in ops else ""))
+            + ("/copy" if "deepcopy" in ops or "newdie" in ops or "reread" in ops else ""))
 
 
 def long_case(rng):
@@ -818,7 +822,7 @@ def run(ctx, out, replay=None):
                 "create_initial_allocation | deepcopy | new Die on the same netlist, maybe a centre written by the caller, "
                 "then a call), again (a call, 0-2 caller steps, a second call - 55% with the very same arguments - maybe a "
                 "third) and walk (3-6 random steps, up to 3 calls); caller steps: squares, alloc, centre written in "
-                "place on the Point or by assigning a new Point (inside the die), deepcopy, newdie; 30-45% of the calls of a "
+                "place on the Point or by assigning a new Point (inside the die), deepcopy, newdie, reread (write_yaml, read back into a new Die); 30-45% of the calls of a "
                 "history are force_algorithm. Every call is run on the die as it is, on a deep copy taken just before, and "
                 "on a die rebuilt from the YAML text with the same values. non-trivial = a call with at least one "
                 "iteration, two modules, one of them soft; distinct by canonical hash")
